@@ -134,7 +134,12 @@ def ordered {K V : Type} [DecidableEq K] [DecidableEq V] (cmp : K → K → Orde
         | none => bad
       | "len", [] => (sl, s!"{a.length} " ++ (if a.length = 0 then "empty" else "nonempty"))
       | "keys", [] => (sl, join (toString a.length :: (Map.keys a).map kc.shw))
-      | "dump", [] => (sl, join (toString a.length :: a.map fun kv => kc.shw kv.1 ++ ":" ++ vc.shw kv.2))
+      | "dump", [] => match Map.walk a with
+        | some es => (sl, join (toString a.length :: es.map fun kv => kc.shw kv.1 ++ ":" ++ vc.shw kv.2))
+        | none => oob
+      | "walk", [] => match Map.walk a with
+        | some es => (sl, join (toString a.length :: es.map fun kv => kc.shw kv.1 ++ ":" ++ vc.shw kv.2))
+        | none => oob
       | _, _ => bad
   | _ => bad
 
@@ -197,8 +202,15 @@ def hashed {K V : Type} [DecidableEq K] [DecidableEq V] (h : K → Nat) (kc : Co
         | some j => (sl, b01 (HashMap.eq h a (sl.getD j (HashMap.empty Gen.HashMap.defaultBuckets))))
         | none => bad
       | "len", [] => (sl, toString a.n)
-      | "raw", [] =>
-        (sl, join (toString a.buckets.length :: (HashMap.enum a).map fun kv => kc.shw kv.1 ++ ":" ++ vc.shw kv.2))
+      | "raw", [] => match HashMap.walk a with
+        | some es => (sl, join (toString a.buckets.length :: es.map fun kv => kc.shw kv.1 ++ ":" ++ vc.shw kv.2))
+        | none => (sl, "oob")
+      | "walk", [] => match HashMap.walk a with
+        | some es => (sl, join (toString a.buckets.length :: es.map fun kv => kc.shw kv.1 ++ ":" ++ vc.shw kv.2))
+        | none => (sl, "oob")
+      | "pot", [n] => match n.toInt? with
+        | some z => if z < -4 ∨ z > 1073741824 then bad else (sl, toString (HashMap.nextPoTInt z))
+        | none => bad
       | "dump", [] =>
         let es := sortBy (fun x y => kc.less x.1 y.1) (HashMap.enum a)
         (sl, join (toString a.n :: es.map fun kv => kc.shw kv.1 ++ ":" ++ vc.shw kv.2))
@@ -242,7 +254,12 @@ def sets {K : Type} [DecidableEq K] (h : K → Nat) (kc : Codec K)
         | some xs => let a' := HashMap.sFromList h xs; (sl.set! i a', s!"ok {a'.n}")
         | none => bad
       | "addself", [] => let a' := HashMap.sAddAll h a a; (sl.set! i a', s!"ok {a'.n}")
-      | "raw", [] => (sl, join (toString a.buckets.length :: (HashMap.sArray a).map kc.shw))
+      | "raw", [] => match HashMap.walk a with
+        | some es => (sl, join (toString a.buckets.length :: es.map fun kv => kc.shw kv.1))
+        | none => (sl, "oob")
+      | "walk", [] => match HashMap.walk a with
+        | some es => (sl, join (toString a.buckets.length :: es.map fun kv => kc.shw kv.1))
+        | none => (sl, "oob")
       | "addset", [t] => match slotOf t with
         | some j =>
           let other := HashMap.sAddAll h E (sl.getD j E)
